@@ -5,6 +5,7 @@ import (
 	"encoding/json"
 	"errors"
 	"fmt"
+	"math"
 	"math/rand"
 	"os"
 	"runtime"
@@ -158,7 +159,11 @@ func newLcSys(capacity, nprocs int, gated bool, seed int64) (*lcSys, error) {
 		return nil, err
 	}
 	s.cache = c
-	s.events = append(s.events, map[string]any{"e": "reset", "cap": capacity})
+	logCap := capacity
+	if logCap > 1<<31-1 {
+		logCap = 1<<31 - 1 // (TLC's integers; nothing is ever evicted either way)
+	}
+	s.events = append(s.events, map[string]any{"e": "reset", "cap": logCap})
 	return s, nil
 }
 
@@ -610,7 +615,11 @@ func driveLruConc(opt *Options) error {
 				break
 			}
 			r := rand.New(rand.NewSource(opt.Seed*7907 + int64(i)))
-			s, err := newLcSys(1+r.Intn(3), 4+r.Intn(5), false, r.Int63())
+			capacity := 1 + r.Intn(3)
+			if i%5 == 4 {
+				capacity = math.MaxInt // "unbounded"
+			}
+			s, err := newLcSys(capacity, 4+r.Intn(5), false, r.Int63())
 			if err != nil {
 				return err
 			}
